@@ -340,9 +340,16 @@ def tests(draw, np_):
     want = draw(st.integers(0, 9))
     cands = [o for o in OPS if status_of(o, td.fam) == "table"] if want < 8 else OPS
     op = draw(st.sampled_from(cands or OPS))
-    kind = draw(st.sampled_from(["local", "local", "all"]))
+    kind = draw(st.sampled_from(["local", "local", "all", "rma"]))
     count = draw(st.sampled_from([0, 1, 1, 2, 2, 3, 4, 5, 8, 17, 64])) if draw(st.integers(0, 3)) == 0 else draw(st.integers(0, 6))
-    nvec = 2 if kind == "local" else np_
+    mode = None
+    if kind == "rma":
+        # one-sided accumulate: the operators of the table for this type, plus MPI_REPLACE and (Get_accumulate/Fetch_and_op) MPI_NO_OP
+        op = draw(st.sampled_from([o for o in OPS if status_of(o, td.fam) == "table"] + ["REPLACE", "REPLACE", "NO_OP", "NO_OP"]))
+        mode = draw(st.sampled_from(["getacc", "fop"] if op == "NO_OP" else ["acc", "getacc", "fop"]))
+        if mode == "fop":
+            count = 1
+    nvec = 2 if kind in ("local", "rma") else np_
     # order-sensitive floating-point folds (more than two contributors) and complex products use exactly representable values
     safe = (td.fam in ("fp", "complex") and op in ("SUM", "PROD") and nvec > 2) or (td.fam == "complex" and op == "PROD")
     es = elem_strategy(td, safe)
@@ -356,6 +363,8 @@ def tests(draw, np_):
     t = {"k": kind, "op": op, "type": name, "v": vecs}
     if kind == "all":
         t["inplace"] = draw(st.booleans())
+    if kind == "rma":
+        t.update(mode=mode, origin=draw(st.integers(0, np_ - 1)), target=draw(st.integers(0, np_ - 1)))
     return t
 
 
@@ -368,7 +377,7 @@ def cases(draw):
 class C31(core.Prop):
     id = "C31"
     drivers = ["mpi_interp"]
-    sizes = {"quick": 1000, "thorough": 30000}
+    sizes = {"quick": 900, "thorough": 30000}
     max_workers = 4
     technique = ("property-based testing (Hypothesis): element-wise reference (Python integers, numpy float32/float64/80-bit long double) of "
                  "every predefined operator, compared with MPI_Reduce_local and MPI_Allreduce results; exhaustive operator x datatype sweep")
@@ -441,13 +450,16 @@ class C31(core.Prop):
                 return oc
             td = tds[t["type"]]
             vecs = t["v"]
-            nvec = 2 if t["k"] == "local" else np_
+            nvec = 2 if t["k"] in ("local", "rma") else np_
             if len(vecs) != nvec or len(set(len(v) for v in vecs)) != 1:
                 oc.invalid = True
                 return oc
             count = len(vecs[0])
             data = [td.enc(v) for v in vecs]
-            if t["k"] == "local":
+            if t["k"] == "rma":
+                prog.append({"op": "rma_acc_hex", "win": data[1].hex(), "data": data[0].hex(), "origin": t["origin"] % np_,
+                             "target": t["target"] % np_, "count": count, "type": t["type"], "mop": t["op"], "mode": t["mode"]})
+            elif t["k"] == "local":
                 prog.append({"op": "reduce_local_hex", "in": data[0].hex(), "inout": data[1].hex(), "count": count, "type": t["type"],
                              "mop": t["op"], "only": [0]})
             else:
@@ -480,6 +492,9 @@ class C31(core.Prop):
             oc.labels.append(t["k"])
             ranks = [0] if t["k"] == "local" else list(range(np_))
             vals = [td.norm(v) for v in t["v"]]
+            if t["k"] == "rma":
+                self.judge_rma(oc, res, i, t, td, data, count, vals, np_)
+                continue
             what = "MPI_%s(%s, MPI_%s, count=%d)" % ("Reduce_local" if t["k"] == "local" else "Allreduce", t["op"], t["type"], count)
             for r in ranks:
                 rec = res.get(r, i)
@@ -528,6 +543,54 @@ class C31(core.Prop):
             if count == 0:
                 oc.labels.append("count=0")
         return oc
+
+
+def _judge_rma(self, oc, res, i, t, td, data, count, vals, np_):
+    """MPI_Accumulate / MPI_Get_accumulate / MPI_Fetch_and_op of `data` (origin) onto the window of the target, which holds `win`"""
+    origin, target, mode, op = t["origin"] % np_, t["target"] % np_, t["mode"], t["op"]
+    what = "MPI_%s(%s, MPI_%s, count=%d) from rank %d to the window of rank %d" % (
+        {"acc": "Accumulate", "getacc": "Get_accumulate", "fop": "Fetch_and_op"}[mode], op, t["type"], count, origin, target)
+    grp = "rma-" + (op if op in ("REPLACE", "NO_OP") else GROUP[op])
+    oc.labels.append("rma:" + mode)
+    for r in range(np_):
+        rec = res.get(r, i)
+        if rec is None:
+            continue
+        if rec["rc"] != 0 or rec["create_rc"] != 0 or rec["fence_rc"] != 0:
+            oc.bad("rma-error:%s:%s" % (grp, t["type"]), "%s: return codes create/fence/call = %d/%d/%d on rank %d"
+                   % (what, rec["create_rc"], rec["fence_rc"], rec["rc"], r))
+            return
+        if not rec.get("guards", True):
+            oc.bad("guard-zone:%s:%s" % (grp, t["type"]), "%s wrote outside its buffers (rank %d)" % (what, r))
+            return
+        got = td.dec(bytes.fromhex(rec["win_after"]))
+        for e in range(count):
+            if r != target or op == "NO_OP":
+                exp = vals[1][e]
+            elif op == "REPLACE":
+                exp = vals[0][e]
+            else:
+                exp = ref_elem(op, td, [vals[0][e], vals[1][e]])
+            if exp is SKIP:
+                continue
+            if not elem_equal(td, got[e], exp):
+                oc.bad("wrong-result:%s:%s" % (op if td.fam in ("pair", "complex") or op in ("REPLACE", "NO_OP") else GROUP[op], t["type"]),
+                       "%s: window of rank %d element %d = %s, expected %s (origin data %s, window before %s)"
+                       % (what, r, e, fmt(got[e]), fmt(exp), fmt(vals[0][e]), fmt(vals[1][e])))
+                return
+        if r == origin:
+            if rec["data_after"] != data[0].hex():
+                oc.bad("input-modified:%s:%s" % (grp, t["type"]), "%s changed the origin buffer" % what)
+            if mode in ("getacc", "fop"):
+                fetched = td.dec(bytes.fromhex(rec["result"]))
+                for e in range(count):
+                    if not elem_equal(td, fetched[e], vals[1][e]):
+                        oc.bad("wrong-fetch:%s:%s" % (grp, t["type"]), "%s: fetched element %d = %s, expected the previous content %s"
+                               % (what, e, fmt(fetched[e]), fmt(vals[1][e])))
+                        return
+
+
+C31.judge_rma = _judge_rma
 
 
 def is_extreme(td, x):
